@@ -95,9 +95,12 @@ def scenario(vec, tag, epoch=0, scale=1, must_be_exact=False):
 
 
 def request_of(sc):
-    return {"cmd": "dedup", "w": sc["w"],
-            "arrivals": [{"ts": ts_of(sc["epoch"], t), "frame": frame_hex(f), "id": (i + 1) * 16 + rx}
-                         for i, (f, t, rx) in enumerate(sc["arr"])]}
+    rq = {"cmd": "dedup", "w": sc["w"],
+          "arrivals": [{"ts": ts_of(sc["epoch"], t), "frame": frame_hex(f), "id": (i + 1) * 16 + rx}
+                       for i, (f, t, rx) in enumerate(sc["arr"])]}
+    if sc.get("cap"):
+        rq["cap"] = sc["cap"]       # small output channel: the consumer exerts back-pressure
+    return rq
 
 
 def convert_record(rec, hex2idx, ts2tick):
@@ -209,7 +212,9 @@ def replay_case(sc, reply, stage):
             "driver_crashed": reply is None or bool(reply.get("panic")),
             "spec_allows": "Insert;Pop* of spec/Dedup.tla per arrival (ties in any order), open groups pending at close; "
                            "PropConservation/PropShape/PropWindow/PropMono over the whole history",
-            "scenario": {"tag": sc["tag"], "w": sc["w"], "epoch": sc["epoch"], "arr": [list(a) for a in sc["arr"]]}}
+            "output_channel_capacity": sc.get("cap") or "n+1 (never full)",
+            "scenario": {"tag": sc["tag"], "w": sc["w"], "epoch": sc["epoch"], "cap": sc.get("cap", 0),
+                         "arr": [list(a) for a in sc["arr"]]}}
 
 
 def report_rejections(run, scenarios, replies, rejected):
@@ -300,6 +305,31 @@ def process(run, scenarios, procs, stats, name, twice=False):
     stats.events += n_events
     stats.rejected += len(rejected)
     return replies
+
+
+def process_capped(run, scenarios, base, caps, procs, bp, name):
+    """Back-pressure: the same histories with a small output channel (the driver drains it
+    only after the dedup task has run, so the task must wait in send on a full channel).
+    A recording identical to the one already validated for the default capacity has the
+    same verdict; any other recording is validated by Trace_Dedup on its own."""
+    for cap in caps:
+        capped = [dict(sc, cap=cap, tag=f"{sc['tag']}:cap{cap}") for sc in scenarios]
+        replies = run_driver(capped, procs)
+        diff = [i for i, (a, b) in enumerate(zip(replies, base)) if a != b]
+        for rp in replies:
+            for per in (rp or {}).get("out", []):
+                if len(per) >= 3 * cap:
+                    bp["arrivals_closing_ge_3cap_groups"] += 1
+                bp["max_records_at_one_arrival"] = max(bp["max_records_at_one_arrival"], len(per))
+        bp["replays"] += len(capped)
+        bp["identical_to_validated_recording"] += len(capped) - len(diff)
+        bp["validated_separately"] += len(diff)
+        if diff:
+            sub, subr = [capped[i] for i in diff], [replies[i] for i in diff]
+            rejected, _n = validate_scenarios(run, sub, subr, procs, name=f"{name}.cap{cap}")
+            report_rejections(run, sub, subr, rejected)
+            bp["rejected"] += len(rejected)
+        core.log(f"{name} cap={cap}: {len(capped)} replays, {len(diff)} recordings differ from the default-capacity one")
 
 
 SELFTEST_VEC = {"w": 2, "tpm": 1, "h": [[0, 0, 0], [1, 0, 1], [0, 1, 1], [512, 1, 0], [0, 2, 0], [1, 3, 1], [0, 5, 0], [1, 6, 1]]}
@@ -401,6 +431,13 @@ def check(run):
         f_mc = bg.submit(model_check, run, thorough)
         selftest = self_test(run)
         rp = process(run, special, procs, stats, "special", twice=True)
+        bp = {"replays": 0, "identical_to_validated_recording": 0, "validated_separately": 0, "rejected": 0,
+              "max_records_at_one_arrival": 0, "arrivals_closing_ge_3cap_groups": 0}
+        process_capped(run, special, rp, [2], procs, bp, "special")
+        nb = len(longs)
+        process_capped(run, special[nb:nb + len(bursts)], rp[nb:nb + len(bursts)], [1, 4], procs, bp, "burst")
+        if bp["arrivals_closing_ge_3cap_groups"] < 10:
+            raise core.ToolError("back-pressure scenarios lost their teeth: no arrival closes >= 3*cap groups")
         samples.append({"tag": special[0]["tag"], "w_ms": special[0]["w"], "epoch_s": special[0]["epoch"],
                         "first_arrivals[frame,tick_1/8ms,receiver]": [list(a) for a in special[0]["arr"][:8]],
                         "code_emitted_first": rp[0]["out"][:8] if rp[0] else None})
@@ -416,6 +453,8 @@ def check(run):
                 batch = [scenario(json.loads(json.loads(ln)), "exhaustive:" + c, must_be_exact=True)
                          for ln in lines[b0:b0 + BATCH]]
                 rp = process(run, batch, procs, stats, f"{c}.{b0 // BATCH}")
+                if c.endswith("_b"):
+                    process_capped(run, batch, rp, [1], procs, bp, c)
                 if b0 == 0:
                     k = len(batch) * 2 // 3
                     samples.append({"tag": batch[k]["tag"], "w_ms": batch[k]["w"],
@@ -446,6 +485,7 @@ def check(run):
         "model_checking": mc_info,
         "spec_mutants_refuted": att_info,
         "binding_self_test": selftest,
+        "back_pressure": bp,
         "attribution_reproducible_on": len(special),
         "exhaustive": False,
         "exhaustive_parts": "spec: all histories <= the MC bounds with all tie orders and an optional flush at close; "
@@ -462,6 +502,8 @@ def check(run):
         "an implementation that flushes them as complete groups is accepted as well)",
         "frames declared decodable are DF17 frames from the repository's tests or built with the Mode S parity; undecodable "
         "ones have a flipped parity bit or are truncated; the emitted record's decoded payload is not judged here",
+        "back-pressure replays (output channel capacity 1, 2, 4): a recording identical to the default-capacity recording "
+        "of the same history shares its verdict; differing recordings are validated on their own",
         "per-arrival attribution relies on the driver yielding to the dedup task after each send (current-thread runtime); "
         "checked reproducible on the long/attack histories each run (and 20x during development, up to 400 records at one arrival)",
     ]
@@ -473,7 +515,8 @@ def replay(run, path):
     scenarios = []
     for case in rep.get("cases", []):
         s = case["scenario"]
-        scenarios.append({"tag": s["tag"], "w": s["w"], "epoch": s["epoch"], "arr": [tuple(a) for a in s["arr"]]})
+        scenarios.append({"tag": s["tag"], "w": s["w"], "epoch": s["epoch"], "cap": s.get("cap", 0),
+                          "arr": [tuple(a) for a in s["arr"]]})
     if not scenarios:
         raise core.ToolError("replay file has no cases")
     replies = run_driver(scenarios, 1)
